@@ -1,0 +1,88 @@
+//go:build verif
+
+package auth
+
+import (
+	"context"
+	"encoding/json"
+	"testing"
+
+	"github.com/alicebob/miniredis/v2"
+	"github.com/gotid/god/internal/verifdrv"
+	"github.com/gotid/god/lib/store/redis"
+	"google.golang.org/grpc/codes"
+	"google.golang.org/grpc/metadata"
+	"google.golang.org/grpc/status"
+)
+
+// Driver of property C17 (cache.Take caches only on success) seen through the RPC authenticator:
+// one Authenticator, a miniredis hash of app -> token, store outages, and calls.
+
+type verifC17Op struct {
+	Op    string `json:"op"` // set | del | down | up | call
+	App   string `json:"app"`
+	Token string `json:"token"`
+}
+
+type verifC17Case struct {
+	Strict bool         `json:"strict"`
+	Ops    []verifC17Op `json:"ops"`
+}
+
+func TestVerifDriverC17(t *testing.T) {
+	verifdrv.Run(t, func(raw json.RawMessage) any {
+		var c verifC17Case
+		if err := json.Unmarshal(raw, &c); err != nil {
+			return map[string]any{"error": err.Error()}
+		}
+		mr, err := miniredis.Run()
+		if err != nil {
+			return map[string]any{"error": err.Error()}
+		}
+		up := true
+		defer func() {
+			if up {
+				mr.Close()
+			}
+		}()
+		a, err := NewAuthenticator(redis.New(mr.Addr()), "apps", c.Strict)
+		if err != nil {
+			return map[string]any{"error": err.Error()}
+		}
+		codesSeen := []int{}
+		for _, op := range c.Ops {
+			switch op.Op {
+			case "set":
+				mr.HSet("apps", op.App, op.Token)
+			case "del":
+				mr.HDel("apps", op.App)
+			case "down":
+				if up {
+					mr.Close()
+					up = false
+				}
+			case "up":
+				if !up {
+					if err := mr.Restart(); err != nil {
+						return map[string]any{"error": "restart: " + err.Error()}
+					}
+					up = true
+				}
+			case "call":
+				ctx := metadata.NewIncomingContext(context.Background(),
+					metadata.MD{appKey: []string{op.App}, tokenKey: []string{op.Token}})
+				err := a.Authenticate(ctx)
+				code := int(codes.OK)
+				if err != nil {
+					if st, ok := status.FromError(err); ok {
+						code = int(st.Code())
+					} else {
+						code = -1
+					}
+				}
+				codesSeen = append(codesSeen, code)
+			}
+		}
+		return map[string]any{"codes": codesSeen}
+	})
+}
